@@ -5,15 +5,15 @@
    Besides replaying the component model the driver evaluates, per session, the property monitor and the plain
    statements on the projected trace and cross-checks them against the theorems' predictions for the repaired
    variant (MODELBUG if the extracted code disagrees with what is proved). *)
-let variant_of = function
-  | "repaired" | "" -> { fix_counters = true; fix_stop = true; fix_active = true }
-  | "d_c" -> { fix_counters = false; fix_stop = true; fix_active = true }
-  | "d_s" -> { fix_counters = true; fix_stop = false; fix_active = true }
-  | "d_a" -> { fix_counters = true; fix_stop = true; fix_active = false }
-  | "d_cs" -> { fix_counters = false; fix_stop = false; fix_active = true }
-  | "d_ca" -> { fix_counters = false; fix_stop = true; fix_active = false }
-  | "d_sa" -> { fix_counters = true; fix_stop = false; fix_active = false }
-  | "defective" -> { fix_counters = false; fix_stop = false; fix_active = false }
+(* variants: "repaired" = v111, "head" = v000; v<s><o><l>: fix_sent, fix_order, fix_l2stop on top of /repo HEAD;
+   "defective" = the code as first found *)
+let variant_of name =
+  let mk s o l = { fix_counters = true; fix_stop = true; fix_active = true; fix_sent = s; fix_order = o; fix_l2stop = l } in
+  match name with
+  | "repaired" | "" -> mk true true true
+  | "head" -> mk false false false
+  | "defective" -> { fix_counters = false; fix_stop = false; fix_active = false; fix_sent = false; fix_order = false; fix_l2stop = false }
+  | s when String.length s = 4 && s.[0] = 'v' -> mk (s.[1] = '1') (s.[2] = '1') (s.[3] = '1')
   | s -> failwith ("unknown variant " ^ s)
 
 let c4_of a b c d = { rxb = n_of_decimal a; txb = n_of_decimal b; rxp = n_of_decimal c; txp = n_of_decimal d }
@@ -64,7 +64,10 @@ let run_case v line =
         | [x; h] -> f (nat_of_int (uint i)) (n_of_int (uint x)) (if List.nth tys (uint i) then n_of_int (uint h) else (ignore (uint h); N0))
         | _ -> raise Bad in
     let g = ref (List.map (fun _ -> sst0) ss) in
-    let traces = Array.make k [] in      (* per session: reversed list of (local event, calls) *)
+    let traces = Array.make k [] in      (* per session: reversed list of (local event, calls ISSUED) *)
+    let arrived = Array.make k [] in     (* per session: reversed list of calls ARRIVED at the provider *)
+    let held = Array.make k [] in        (* per session: calls issued but delayed (oldest first) *)
+    let hold_start = ref false in
     let racy = ref false in
     let nops = List.length ops in
     let step_one ev =
@@ -73,7 +76,12 @@ let run_case v line =
       List.iteri (fun j (_, o) -> match project bk (nat_of_int j) ev with
           | Some le -> traces.(j) <- (le, o) :: traces.(j)
           | None -> ()) r;
-      List.concat (List.mapi (fun j (_, o) -> List.map (fun x -> (j, show_out j x)) o) r) in
+      (* asynchronous delivery: which of the issued calls arrive now *)
+      List.concat (List.mapi (fun j (_, o) ->
+          let (h', arr) = issue v !hold_start held.(j) o in
+          held.(j) <- h';
+          arrived.(j) <- List.rev_append arr arrived.(j);
+          List.map (fun x -> (j, show_out j x)) arr) r) in
     let groups = List.mapi (fun oi op ->
         if !racy then raise Bad;
         if String.length op > 2 && String.sub op 0 2 = "C/" then begin
@@ -108,8 +116,21 @@ let run_case v line =
           | ["T"; b; m; sn] -> GTick (n_of_int (uint b), nat_list_of_mask (uint m) 0 k, parse_snap sn)
           | ["B"] -> GRestart
           | ["P"; p] -> GPrune (p = "1")
+          | ["H"; _] | ["U"] -> GPrune false       (* placeholder, handled below *)
           | _ -> raise Bad in
-        "[" ^ String.concat " " (List.map snd (step_one ev)) ^ "]" end) ops in
+        match String.split_on_char ',' op with
+        | ["H"; "S"] -> hold_start := true; "[]"
+        | ["H"; "-"] -> hold_start := false; "[]"
+        | ["H"; _] -> raise Bad
+        | ["U"] ->
+          (* the delayed calls are let through, session by session, oldest first *)
+          let toks = List.concat (List.mapi (fun j _ ->
+              let l = held.(j) in
+              held.(j) <- [];
+              arrived.(j) <- List.rev_append l arrived.(j);
+              List.map (show_out j) l) ss) in
+          "[" ^ String.concat " " toks ^ "]"
+        | _ -> "[" ^ String.concat " " (List.map snd (step_one ev)) ^ "]" end) ops in
     let dump = List.mapi (fun j s ->
         let p = Printf.sprintf "s%d=b%d" j (if s.inb then 1 else 0) in
         let p = p ^ (match s.cache with
@@ -122,15 +143,25 @@ let run_case v line =
     let verdicts = List.mapi (fun j _ ->
         let t = List.rev traces.(j) in
         let evs = List.map fst t in
-        let brk = bracketed false (outputs t) and stp = stops_ok false t and mono = nondecreasing c4z (outputs t) in
+        let arr = List.rev arrived.(j) in
+        (* brk / mono / snt / ord are judged on what ARRIVED at the provider, stp on the notifications *)
+        let brk = bracketed false arr and stp = stops_ok false t and mono = nondecreasing c4z arr
+        and snt = nondecreasing_sent c4z arr and ord = strict false arr in
+        let ibrk = bracketed false (outputs t) and imono = nondecreasing c4z (outputs t)
+        and isnt = nondecreasing_sent c4z (outputs t) and iord = strict false (outputs t) in
         let gj = List.nth tys j in
         let wraps = lrun_wraps v gj sst0 evs and np = no_prune evs in
         (* cross-check of the extracted code against what is proved for the repaired variant *)
         let (_, t') = lrun v gj sst0 evs in
         let bug = t' <> t ||
                   (v = variant_of "repaired" &&
-                   ((not wraps && not (accepted t)) || not stp || (np && not wraps && not (brk && mono)))) in
-        Printf.sprintf "v%d=%s%s%s%s" j (b brk) (b stp) (b mono) (if bug then "MODELBUG" else "")) ss in
+                   ((not wraps && not (accepted true t)) || not stp || (np && not wraps && not (ibrk && imono && isnt))
+                    || (np && not wraps && never_restored evs && not (iord && ord && snt)))) ||
+                  (v = variant_of "head" &&
+                   ((not wraps && not (accepted false t)) || not stp || (np && not wraps && not (ibrk && imono))
+                    || (np && not wraps && all_acked evs && not isnt)
+                    || (np && not wraps && never_restored evs && not iord))) in
+        Printf.sprintf "v%d=%s%s%s%s%s%s" j (b brk) (b stp) (b mono) (b snt) (b ord) (if bug then "MODELBUG" else "")) ss in
     String.concat " " groups ^ " ; " ^ (if !racy then "racy" else String.concat " " dump) ^ " ; " ^ String.concat " " verdicts
   | _ -> raise Bad
 
